@@ -22,6 +22,11 @@ CLAIMED = {
             "Trusted: the abstract machine (written from the statement), the benign argument subset, the parser on that subset. Stubbed: every command (by design).",
             "deterministic simulation: seeded programs + scripted command results (error/crash/exit injection) vs reference machine, online comparison, minimised replay",
             "DESIGN.md section 3 C03, Appendix D.1"),
+    "C13": ("fault_enumeration",
+            "Per sampled program the halt flag is raised at EVERY depth-0 instruction boundary of the (300-step-bounded) unhalted run and at every applicable position inside the in-flight instruction (before the command body, after it, during its on_error handler, from a nested invocation); each halted execution must be the exact prefix of the unhalted one: same events, no further top-level instruction started, Ok result, variables as after the in-flight instruction. Exhaustive in the halt position per program, sampled over programs. A quarter of the runs instead raise the flag from a second thread under shuttle's seeded random / PCT scheduler (exploration).",
+            "Trusted: the decorator's depth bookkeeping (depth 0 = runner's own instruction, handler invocation classified by following an Error end), shuttle's serialisation of the two threads, handle names normalised by order of first appearance when executions are compared. Stubbed: harness commands, OS scheduler (mode B).",
+            "deterministic simulation: fault enumeration of the halt instant over all instruction boundaries + seeded thread schedules (shuttle), prefix-refinement oracle against the unhalted run",
+            "DESIGN.md section 3 C13"),
 }
 
 NOT_YET = {k: "applicable and planned (DESIGN.md section 3) but its check is not built yet; not claimed until it is" for k in
